@@ -66,6 +66,10 @@ def subject(label, t, Q=None):
                 ops.append(f.isnull() if i in e["crit_slots"] else f)
             return e["make"](ops)
     # nested builders of the statement's own dialect class (mixed classes are C08's subject)
+    if label == "Array:empty":
+        return r["Array"]()
+    if label == "Tuple:empty":
+        return r["Tuple"]()
     if label == "subquery":
         return Q.from_(t).select(t.zz)
     if label == "setop":
@@ -77,10 +81,10 @@ def all_labels():
     r = R()
     t = r["Table"]("t")
     # (Star and Index are not aliasable expressions: '*' cannot carry a name and Index only occurs in index hints)
-    return [lab for lab, _ in leaf_terms(r, t) if lab not in ("Star", "Index")] + [e["label"] for e in entries()] + ["subquery", "setop"]
+    return [lab for lab, _ in leaf_terms(r, t) if lab not in ("Star", "Index")] + [e["label"] for e in entries()] + ["subquery", "setop", "Array:empty", "Tuple:empty"]
 
 
-DEFINING = ["select", "select-second", "returning", "distinct-on", "insert-select",
+DEFINING = ["select", "select-second", "returning", "returning-update", "returning-delete", "returning-update-from", "distinct-on", "insert-select",
             # the select list defines the same alias as well (for the same term / for another term): DISTINCT ON stays a defining position
             "distinct-on-selected", "distinct-on-other-selected"]
 REFERRING = ["groupby-selected", "orderby-selected", "groupby-unselected", "orderby-unselected", "setop-orderby-selected",
@@ -101,7 +105,7 @@ def cases(tier, seed, shard, nshards):
     for d in DIALECT_CLASSES:
         for lab in labels:
             for pos in DEFINING + REFERRING:
-                if pos in ("returning", "distinct-on", "distinct-on-selected", "distinct-on-other-selected") and d != "PostgreSQLQuery":
+                if pos in ("returning", "returning-update", "returning-delete", "returning-update-from", "distinct-on", "distinct-on-selected", "distinct-on-other-selected") and d != "PostgreSQLQuery":
                     continue
                 k += 1
                 if k % nshards == shard:
@@ -189,6 +193,13 @@ def build_position(case, aliased):
         return Q.into(r["Table"]("dst")).from_(t).select(x)
     if pos == "returning":
         return Q.into(t).insert(1).returning(x)
+    if pos == "returning-update":
+        return Q.update(t).set(t.other, 1).returning(y, x)
+    if pos == "returning-delete":
+        return Q.from_(t).delete().where(t.other == 1).returning(x)
+    if pos == "returning-update-from":
+        u_ = r["Table"]("u")
+        return Q.update(t).set(t.other, u_.other).from_(u_).where(t.other == u_.other).returning(x, u_.other)
     if pos == "distinct-on":
         return Q.from_(t).select(y).distinct_on(x)
     if pos == "distinct-on-selected":
